@@ -346,3 +346,54 @@ def rule_rk_bundled(prog: Program, report: Report) -> None:
                     report.ob("RK-bundled", where, f"rule {src(rk['tag'])} always supplies {required}")
     report.count("RK bundled parse rules with required attrs", n)
     report.expect_at_least("RK-bundled", "bundled parse rules with required attrs", n, 2)
+
+
+def rule_rk_json_falsy(prog: Program, report: Report) -> None:
+    """A JSON key written only when its value is truthy loses every falsy value
+    but the one the reader substitutes.  Allowed: a value whose static type has
+    a single falsy inhabitant (an int written when > 0 with reader default 0, a
+    bool with default False, a mapping/list with 'empty' default).  A value of
+    the JSON union type has many (0, False, "", [], {}, None): omitting the key
+    for all of them decodes them all to None."""
+    from ..gates import view
+
+    report.rules.append("RK-json-falsy")
+    tm = prog.types
+    n = 0
+    for fn in prog.all_funcs():
+        if fn.name != "to_json":
+            continue
+        v = view(prog, fn.key)
+        for d in walk_own(fn.node):
+            if not isinstance(d, ast.Dict):
+                continue
+            for k, val in zip(d.keys, d.values):
+                if not (isinstance(k, ast.Constant) and isinstance(k.value, str)):
+                    continue
+                guards = v.cfg.guards_at(val)
+                for atom, outcome in guards:
+                    if not outcome or isinstance(atom, (ast.Compare, ast.Call)):
+                        continue
+                    if src(atom) not in src(val):
+                        continue  # the condition is about something else
+                    names = set(tm.instance_names(fn.module, atom))
+                    classes = set()
+                    for nm in names:
+                        if nm in ("builtins.int", "builtins.float"):
+                            classes.add("number")
+                        elif nm == "builtins.bool":
+                            classes.add("bool")
+                        elif nm == "builtins.str":
+                            classes.add("str")
+                        elif nm in ("builtins.list", "typing.Sequence", "builtins.tuple"):
+                            classes.add("list")
+                        elif nm in ("builtins.dict", "typing.Mapping"):
+                            classes.add("dict")
+                        elif nm == "Any":
+                            classes.add("any")
+                    n += 1
+                    if len(classes) > 1 or "any" in classes:
+                        report.violate("RK-json-falsy", fn, val, f"key \"{k.value}\" is written only when `{src(atom)}` is truthy", f"`{src(atom)}` has type {tm.text(fn.module, atom)}: its falsy values (0, False, \"\", [], {{}}) are all different values, but omitting the key makes the reader decode every one of them as absent/None - the field does not survive a JSON round trip", what="an optional JSON key is omitted for at most one value")
+                    else:
+                        report.ob("RK-json-falsy", fn.key, f"key \"{k.value}\" omitted only for the single falsy value of `{src(atom)}` ({'/'.join(sorted(classes)) or 'object'})")
+    report.count("RK truthiness-guarded JSON keys", n)
